@@ -279,11 +279,16 @@ def truthiness(key, subject):
 
 
 # ------------------------------------------------------------------------------------------------ __call__ / check_attributes
-def wrapper_function(prog, call):
+def wrapper_function(prog, call, rep=None, rid=None):
     """The function KeyAction.__call__ hands back (by value: whatever it is called, however it is decorated)."""
     cands = []
     for s in Interp(prog, Scenario(inline=noinline)).run(call):
         if s.raised is not None:
+            continue
+        if rep is not None and s.ret is not None and render(s.ret) == call.params[1]:
+            rep.violation(rid, 'KeyAction.__call__', 'returns the operation itself under %s' % [f[0] for f in s.facts],
+                          'the decorator hands the operation back unguarded on some path: refusals and preconditions are skipped', where=call.where,
+                          expected='the guarding wrapper on every path', found=render(s.ret))
             continue
         if isinstance(s.ret, FuncV):
             fi = s.ret.fi
@@ -306,7 +311,7 @@ def check_call_order(rep, prog, rid):
     if call is None or len(call.params) != 2:
         raise AnalysisError('KeyAction.__call__ vanished')
     me, act = call.params
-    w = wrapper_function(prog, call)
+    w = wrapper_function(prog, call, rep, rid)
     if not w.params or w.node.args.kwarg is None:
         raise AnalysisError('KeyAction wrapper: no key parameter / keyword arguments')
     kp, kw = w.params[0], w.node.args.kwarg.arg
